@@ -200,7 +200,77 @@ theorem parseU32_natDigits_iff (n : Nat) : parseU32 (natDigits n) = if n < 2 ^ 3
       · rename_i heq; cases heq; exact absurd rfl hplus
       · simp [parseDigits, hall, hv, h]
 
-/-! verify -/
+/-! ## alphabet selection: a character of another base64 dialect is refused -/
+
+theorem parse_ds_bad_char (tag value : List Char) (n : Nat) (k : KdfTag) (c : Char) (hbr : '}' ∉ tag)
+    (hentry : lookup (lower tag) tagTable = some (.ds n k)) (hm : c ∈ value)
+    (hc : symVal .standard c = none) (hp : c ≠ '=') :
+    parse (renderBraced tag value) = refused .Base64Decoding := by
+  simp only [refused]
+  rw [parse_braced _ _ hbr]
+  simp only [parseTagged, hentry, decodeStd, b64Decode_bad_char _ _ _ c hc hp value hm]
+
+theorem parse_dss_bad_char (tag value : List Char) (n : Nat) (strict : Bool) (k : KdfTag) (c : Char) (hbr : '}' ∉ tag)
+    (hentry : lookup (lower tag) tagTable = some (.dss n strict k)) (hm : c ∈ value)
+    (hc : symVal .standard c = none) (hp : c ≠ '=') :
+    parse (renderBraced tag value) = refused .Base64Decoding := by
+  simp only [refused]
+  rw [parse_braced _ _ hbr]
+  simp only [parseTagged, hentry, decodeStd, b64Decode_bad_char _ _ _ c hc hp value hm]
+
+theorem parse_ipa_bad_char (value : List Char) (c : Char) (hm : c ∈ value)
+    (hc : symVal .urlSafe c = none) (hp : c ≠ '=') :
+    parse (['i','p','a','N','T','H','a','s','h',':',' '] ++ value) = refused .Base64Decoding := by
+  simp only [refused]
+  have hpre : firstPrefix prefixTable (['i','p','a','N','T','H','a','s','h',':',' '] ++ value) = some (.parse_ipanthash, value) := by
+    simp [firstPrefix, prefixTable, stripPrefix]
+  simp only [parse, hpre, parseIpaNtHash, b64Decode_bad_char _ _ _ c hc hp value hm]
+
+/-! ## `$5$` / `$6$` strings as read at verify time (`sha_crypt::sha{256,512}_check`) -/
+
+theorem shaCryptRead_rounds (id : Char) (rounds : Nat) (salt hash : List Char)
+    (hid : id = '5' ∨ id = '6') (hs : '$' ∉ salt) (hh : '$' ∉ hash) (hr : rounds < 2 ^ 64) :
+    shaCryptRead id ('$' :: id :: '$' :: (['r','o','u','n','d','s','='] ++ natDigits rounds) ++ '$' :: (salt ++ '$' :: hash)) =
+      if shaCryptRoundsMin ≤ rounds ∧ rounds ≤ shaCryptRoundsMax then some ⟨rounds, salt.take 16, hash⟩ else none := by
+  have hidd : id ≠ '$' := by rcases hid with rfl | rfl <;> decide
+  have hnd : '$' ∉ (['r','o','u','n','d','s','='] ++ natDigits rounds) := by
+    intro hm
+    rcases List.mem_append.mp hm with h | h
+    · revert h; decide
+    · exact natDigits_no_sep rounds '$' (by decide) h
+  have s0 : splitChar '$' ('$' :: id :: '$' :: (['r','o','u','n','d','s','='] ++ natDigits rounds) ++ '$' :: (salt ++ '$' :: hash)) =
+      [[], [id], ['r','o','u','n','d','s','='] ++ natDigits rounds, salt, hash] := by
+    have h1 : splitChar '$' ([id] ++ '$' :: ((['r','o','u','n','d','s','='] ++ natDigits rounds) ++ '$' :: (salt ++ '$' :: hash))) =
+        [id] :: splitChar '$' ((['r','o','u','n','d','s','='] ++ natDigits rounds) ++ '$' :: (salt ++ '$' :: hash)) :=
+      splitChar_field _ _ _ (by simp; exact fun h => hidd h.symm)
+    rw [splitChar_field _ _ _ hnd, splitChar_field _ _ _ hs, splitChar_last _ _ hh] at h1
+    simp only [List.cons_append, List.nil_append] at h1 ⊢
+    rw [splitChar, if_pos rfl, h1]
+  have hsw : startsWith ['r','o','u','n','d','s','='] (['r','o','u','n','d','s','='] ++ natDigits rounds) = true := by
+    unfold startsWith
+    rw [stripPrefix_append]
+    rfl
+  have hdrop : (['r','o','u','n','d','s','='] ++ natDigits rounds).drop 7 = natDigits rounds := by simp
+  unfold shaCryptRead
+  rw [s0]
+  simp only [hsw, hdrop, parseUnsigned_natDigits, hr, if_true, ne_eq, not_true_eq_false, if_false]
+
+theorem shaCryptRead_default (id : Char) (salt hash : List Char)
+    (hid : id = '5' ∨ id = '6') (hs : '$' ∉ salt) (hh : '$' ∉ hash)
+    (hnr : startsWith ['r','o','u','n','d','s','='] salt = false) :
+    shaCryptRead id ('$' :: id :: '$' :: salt ++ '$' :: hash) = some ⟨shaCryptRoundsDefault, salt.take 16, hash⟩ := by
+  have hidd : id ≠ '$' := by rcases hid with rfl | rfl <;> decide
+  have s0 : splitChar '$' ('$' :: id :: '$' :: salt ++ '$' :: hash) = [[], [id], salt, hash] := by
+    have h1 : splitChar '$' ([id] ++ '$' :: (salt ++ '$' :: hash)) = [id] :: splitChar '$' (salt ++ '$' :: hash) :=
+      splitChar_field _ _ _ (by simp; exact fun h => hidd h.symm)
+    rw [splitChar_field _ _ _ hs, splitChar_last _ _ hh] at h1
+    simp only [List.cons_append, List.nil_append] at h1 ⊢
+    rw [splitChar, if_pos rfl, h1]
+  unfold shaCryptRead
+  rw [s0]
+  simp [hnr, shaCryptRoundsDefault, shaCryptRoundsMin, shaCryptRoundsMax]
+
+/-! ## the verify wrapper -/
 
 theorem verify_dispatch_is_spec (t : KdfTag) : lookupTag t verifyTable = some (specPrim t) :=
   lookupTag_verifyTable t
@@ -307,5 +377,20 @@ example : verify d15Prims { tag := .SSHA256, salt := [1] } (List.replicate 512 0
   have h : ∀ ct : Bytes, refAccepts d15Prims { tag := .SSHA256, salt := [1] } ct = .ok true := by
     intro ct; simp [refAccepts, specPrim, runPrim, d15Prims]
   exact h _
+
+example : parse (renderBraced ['S','S','H','A'] ['a','b','.','d']) = refused .Base64Decoding :=
+  parse_dss_bad_char _ _ 20 false .SSHA1 '.' (by decide) (by decide) (by decide) (by decide) (by decide)
+
+example : parse (['i','p','a','N','T','H','a','s','h',':',' '] ++ ['a','b','+','d']) = refused .Base64Decoding :=
+  parse_ipa_bad_char _ '+' (by decide) (by decide) (by decide)
+
+example : shaCryptRead '6' ('$' :: '6' :: '$' :: (['r','o','u','n','d','s','='] ++ natDigits 1000) ++ '$' :: (['a','b'] ++ '$' :: ['x','y'])) =
+    some ⟨1000, ['a','b'], ['x','y']⟩ := by
+  rw [shaCryptRead_rounds '6' 1000 ['a','b'] ['x','y'] (Or.inr rfl) (by decide) (by decide) (by decide)]
+  decide
+
+example : shaCryptRead '5' ('$' :: '5' :: '$' :: (['r','o','u','n','d','s','='] ++ natDigits 999) ++ '$' :: (['a','b'] ++ '$' :: ['x','y'])) = none := by
+  rw [shaCryptRead_rounds '5' 999 ['a','b'] ['x','y'] (Or.inl rfl) (by decide) (by decide) (by decide)]
+  decide
 
 end Kanidm.PwFormat
